@@ -7,6 +7,11 @@ BASELINE = ("cd /repo && cargo nextest run --workspace --no-fail-fast --test-thr
 
 # id -> (level, engine, technique, level text, level note, design ref)
 CLAIMED = {
+  "C01": ("model_checking", "E-BFS",
+          "explicit-state BFS to fixpoint over the real Orders / EngineState order-tracking code",
+          "Every reachable order-tracking state for 2-3 concurrent client order ids (all 10 exchange-consistent fill timelines per id) is enumerated to fixpoint, on the Orders table directly and through EngineState::update_from_account / the in-flight recorder over 3 instruments on 2 exchanges; every transition executes the real code and is compared with the allowed-successor set the statement gives for (tracked state, input); all inputs (duplicates, stale, out-of-order, full snapshots) are offered in every state.",
+          "Unique client order ids; exchange reports of one order follow a timeline with non-decreasing fill level (late/duplicate/out-of-order delivery unrestricted); timestamps in {1,2,3}, fill levels in {0, half, full}.",
+          "DESIGN.md §3 C01"),
   "C14": ("model_checking", "E-BFS",
           "explicit-state BFS to fixpoint over the real Engine::process",
           "All reachable connectivity states for 1, 2 and 3 exchanges are enumerated to fixpoint; every transition is an execution of the real Engine::process compared with the statement's flag model (global iff all links healthy, exactly the addressed link flips, on_disconnect exactly once per notice, audit output).",
